@@ -107,7 +107,7 @@ theorem fundB {D b b' D'} (h : HR cx D (.b b) (.b b') D') : SoundB (HQ cx) cx D 
 
 /-! ### call levels -/
 
-theorem RRel.retWrap {N : NumOps} {Q : QRel} {β : CellRel} {D' : List DName} {r r' : Res N (Ctl N)} :
+theorem RRel.retWrap {N : NumOps} {Q : QRel} {β : CellRel N} {D' : List DName} {r r' : Res N (Ctl N)} :
     RRel Q cx β (ACtl cx D') r r' →
     RRel Q cx β AEq (match r with
         | .ok (.ret vs) σ2 => (Res.ok vs σ2 : Res N (List (Val N)))
@@ -130,11 +130,15 @@ theorem RRel.retWrap {N : NumOps} {Q : QRel} {β : CellRel} {D' : List DName} {r
     · subst ha; exact RRel.mono hle (RRel.okEq h)
   · obtain ⟨rfl, β1, hle, h⟩ := hr
     exact RRel.mono hle (RRel.err h)
+  · exact RRel.timeout_left hr _
+  · exact RRel.timeout_left hr _
   · exact RRel.timeout
 
-theorem callClosure_ok {N : NumOps} (ρ : ExtOracle N) : ∀ n, CallOK (HQ cx) cx (callClosure ρ n)
-  | 0 => fun _ _ _ _ _ _ _ _ => RRel.timeout
-  | n + 1 => by
+/-- every call level respects the relation, given the context's assumption `cx.CF` at every level -/
+theorem callClosure_ok {N : NumOps} (ρ : ExtOracle N) (hCF : ∀ n, cx.CF N (callClosure ρ n)) :
+    ∀ n, CallOK (HQ cx) cx (callClosure ρ n)
+  | 0 => ⟨hCF 0, fun _ _ _ _ _ _ _ _ => RRel.timeout⟩
+  | n + 1 => ⟨hCF (n + 1), by
     intro β c c' args σ σ' hcc hs
     obtain ⟨body, cenv, va⟩ := c
     obtain ⟨body', cenv', va'⟩ := c'
@@ -146,62 +150,104 @@ theorem callClosure_ok {N : NumOps} (ρ : ExtOracle N) : ∀ n, CallOK (HQ cx) c
       simp only [callClosure, hn]
       obtain ⟨β1, h1, hs1, he1⟩ := hs.bindLocals (List.map TName.name ps') hwp args he
       refine RRel.mono h1 (RRel.retWrap (D' := D') ?_)
-      exact (fundB hbb).2 N _ ρ n _ _ _ _ _ (callClosure_ok ρ n) hs1 ⟨rfl, he1⟩
+      exact (fundB hbb).2 N _ ρ n _ _ _ _ _ (callClosure_ok ρ hCF n) hs1 ⟨rfl, he1⟩⟩
 
 /-- the empty injection -/
-def emptyRel : CellRel := fun _ _ => False
+def emptyRel {N : NumOps} : CellRel N := ⟨fun _ _ => False, 0, 0, []⟩
 
 /-- the initial dead set: the watched globals -/
 def watD (cx : Cx) : List DName := cx.W.map DName.wat
 
-theorem LocOK.init {cx : Cx} {β : CellRel} : LocOK cx β (watD cx) [] [] :=
+theorem LocOK.init {cx : Cx} {β : CellRel N} : LocOK cx β (watD cx) [] [] :=
   ⟨fun _ _ => by simp only [lookupAssoc, OptRel], fun _ hn => List.mem_map_of_mem hn,
     fun _ _ => ⟨rfl, rfl⟩⟩
 
-theorem SRel.init {N : NumOps} (σ : State N) (hG : ∀ p ∈ cx.G N, σ.getGlobal p.1 = p.2) (hc : σ.cells = [])
-    (hcl : σ.closures = []) : SRel (HQ cx) cx emptyRel σ σ where
+/-- a pre-existing closure (e.g. the body a watched global is preset to) that captures nothing and
+respects the initial dead set is related to itself -/
+theorem CRel.initSelf {N : NumOps} {β : CellRel N} (f : FnBody) (hf : NoRefF (watD cx) f) :
+    CRel (HQ cx) cx β (⟨f, [], []⟩ : Closure N) ⟨f, [], []⟩ :=
+  ⟨rfl, watD cx, HQ_refl _ _ hf, LocOK.init⟩
+
+/-- an initial state is related to itself: no cells; the watched-global facts hold; every pre-existing
+closure is self-related (`hcl`; `[]` for `initState`) -/
+theorem SRel.init {N : NumOps} (σ : State N) (hG : ∀ p ∈ cx.G N, σ.getGlobal p.1 = p.2)
+    (hF : ∀ p ∈ cx.F, FnGlobal σ p.1 p.2) (hc : σ.cells = [])
+    (hcl : Forall2 (CRel (HQ cx) cx emptyRel) σ.closures σ.closures) : SRel (HQ cx) cx emptyRel σ σ where
   globals := rfl
   tables := rfl
   trace := rfl
   ginv := hG
-  inj := fun h => h.elim
-  bound := fun h => h.elim
-  cell := fun h => h.elim
-  closures := by rw [hcl]; exact .nil
+  finv := hF
+  inj := fun h => False.elim h
+  bound := fun h => False.elim h
+  cell := fun h => False.elim h
+  closures := hcl
+  front := ⟨Nat.zero_le _, Nat.zero_le _⟩
+  pin := fun _ hp => by cases hp
 
-theorem runChunk_rel {N : NumOps} (ρ : ExtOracle N) (n : Nat) {b b' : Block} {D' : List DName}
-    (h : HR cx (watD cx) (.b b) (.b b') D') {β : CellRel} {σ σ' : State N} (hs : SRel (HQ cx) cx β σ σ') :
+theorem runChunk_rel {N : NumOps} (ρ : ExtOracle N) (hCF : ∀ n, cx.CF N (callClosure ρ n)) (n : Nat)
+    {b b' : Block} {D' : List DName}
+    (h : HR cx (watD cx) (.b b) (.b b') D') {β : CellRel N} {σ σ' : State N} (hs : SRel (HQ cx) cx β σ σ') :
     RRel (HQ cx) cx β AEq (runChunk ρ n b σ) (runChunk ρ n b' σ') := by
   unfold runChunk
-  exact RRel.retWrap ((fundB h).2 N _ ρ n _ _ _ _ _ (callClosure_ok ρ n) hs ⟨rfl, LocOK.init⟩)
+  exact RRel.retWrap ((fundB h).2 N _ ρ n _ _ _ _ _ (callClosure_ok ρ hCF n) hs ⟨rfl, LocOK.init⟩)
 
-theorem observe_rel {N : NumOps} {β : CellRel} {r r' : Res N (List (Val N))} (h : RRel (HQ cx) cx β AEq r r') :
-    observe r' = observe r := by
+theorem observe_rel {N : NumOps} {β : CellRel N} {r r' : Res N (List (Val N))} (h : RRel (HQ cx) cx β AEq r r') :
+    (cx.upto = true ∧ observe r = .timeout) ∨ observe r' = observe r := by
   cases r <;> cases r' <;> simp only [RRel] at h
   · obtain ⟨β1, _, ha, hs⟩ := h
     cases ha
+    right
     simp only [observe, hs.trace]
     congr 1
     exact List.map_congr_left fun v _ => hs.canon v
   · obtain ⟨rfl, β1, _, hs⟩ := h
+    right
     simp only [observe, hs.trace, hs.canon]
-  · rfl
+  · exact .inl ⟨h, rfl⟩
+  · exact .inl ⟨h, rfl⟩
+  · exact .inr rfl
 
-/-- **Observational equality for the heap relation.** `HR`-related closed programs have the same
-outcome (returned canonical values / raised value, trace of external calls) for every number
-model, oracle, call level and extern list. -/
-theorem runProgram_hr {N : NumOps} (ρ : ExtOracle N) (n : Nat) (externs : List String) {b b' : Block}
-    {D' : List DName} (h : HR cx (watD cx) (.b b) (.b b') D')
-    (hG : ∀ p ∈ cx.G N, (initState externs : State N).getGlobal p.1 = p.2) :
-    runProgram ρ n externs b' = runProgram ρ n externs b :=
-  observe_rel (runChunk_rel ρ n h (SRel.init _ hG rfl rfl))
+/-- **Observational refinement for the heap relation**, general form: from any initial state without
+cells in which the context's facts hold — same outcome, or (only when `cx.upto`) the original exhausts
+its budget. -/
+theorem runChunk_hr' {N : NumOps} (ρ : ExtOracle N) (hCF : ∀ n, cx.CF N (callClosure ρ n)) (n : Nat)
+    {b b' : Block} {D' : List DName} (h : HR cx (watD cx) (.b b) (.b b') D') (σ : State N)
+    (hG : ∀ p ∈ cx.G N, σ.getGlobal p.1 = p.2) (hF : ∀ p ∈ cx.F, FnGlobal σ p.1 p.2) (hc : σ.cells = [])
+    (hcl : Forall2 (CRel (HQ cx) cx emptyRel) σ.closures σ.closures) :
+    (cx.upto = true ∧ observe (runChunk ρ n b σ) = .timeout) ∨
+      observe (runChunk ρ n b' σ) = observe (runChunk ρ n b σ) :=
+  observe_rel (runChunk_rel ρ hCF n h (SRel.init σ hG hF hc hcl))
 
-/-- the same from any initial state without cells and closures in which the watched-global facts hold
-("execution in a modified environment") -/
+/-- exact contexts (`cx.upto = false`, no closure facts, no assumption on the call handler): equality -/
 theorem runChunk_hr {N : NumOps} (ρ : ExtOracle N) (n : Nat) {b b' : Block} {D' : List DName}
     (h : HR cx (watD cx) (.b b) (.b b') D') (σ : State N) (hG : ∀ p ∈ cx.G N, σ.getGlobal p.1 = p.2)
-    (hc : σ.cells = []) (hcl : σ.closures = []) :
-    observe (runChunk ρ n b' σ) = observe (runChunk ρ n b σ) :=
-  observe_rel (runChunk_rel ρ n h (SRel.init σ hG hc hcl))
+    (hc : σ.cells = []) (hcl : σ.closures = [])
+    (hu : cx.upto = false := by rfl) (hF : cx.F = [] := by rfl)
+    (hCF : ∀ n, cx.CF N (callClosure ρ n) := by intros; trivial) :
+    observe (runChunk ρ n b' σ) = observe (runChunk ρ n b σ) := by
+  have := runChunk_hr' ρ hCF n h σ hG (by rw [hF]; intro p hp; cases hp) hc (by rw [hcl]; exact .nil)
+  rcases this with ⟨h1, _⟩ | h2
+  · rw [hu] at h1; cases h1
+  · exact h2
+
+theorem runProgram_hr {N : NumOps} (ρ : ExtOracle N) (n : Nat) (externs : List String) {b b' : Block}
+    {D' : List DName} (h : HR cx (watD cx) (.b b) (.b b') D')
+    (hG : ∀ p ∈ cx.G N, (initState externs : State N).getGlobal p.1 = p.2)
+    (hu : cx.upto = false := by rfl) (hF : cx.F = [] := by rfl)
+    (hCF : ∀ n, cx.CF N (callClosure ρ n) := by intros; trivial) :
+    runProgram ρ n externs b' = runProgram ρ n externs b :=
+  runChunk_hr ρ n h _ hG rfl rfl hu hF hCF
+
+/-- up-to-timeout contexts: same outcome unless the original exhausts its budget -/
+theorem runProgram_hr_upto {N : NumOps} (ρ : ExtOracle N) (n : Nat) (externs : List String) {b b' : Block}
+    {D' : List DName} (h : HR cx (watD cx) (.b b) (.b b') D')
+    (hG : ∀ p ∈ cx.G N, (initState externs : State N).getGlobal p.1 = p.2)
+    (hF : cx.F = [] := by rfl) (hCF : ∀ n, cx.CF N (callClosure ρ n) := by intros; trivial) :
+    runProgram ρ n externs b = .timeout ∨ runProgram ρ n externs b' = runProgram ρ n externs b := by
+  have := runChunk_hr' ρ hCF n h (initState externs) hG (by rw [hF]; intro p hp; cases hp) rfl .nil
+  rcases this with ⟨_, h1⟩ | h2
+  · exact .inl h1
+  · exact .inr h2
 
 end DarkluaModel.Sem.Heap
